@@ -60,6 +60,9 @@ def work(tier, seed):
     # (1b) many classes (internal codes / flat cell indices leave small integer types from N = 12 and N = 182 on)
     for N in (12, 13, 17, 40, 100, 127, 130, 182, 200, 260):
         items.append({"kind": "many_classes", "N": N})
+    # (1c) several hundred samples whose weights span sixty binades (dyadic, so every cell total is exact in double)
+    for n_samples in (600, 4097):
+        items.append({"kind": "many_samples", "n": n_samples})
     # (2) from matrices
     for N in b["N"]:
         ents = b["matrix_entries"] if N < 4 else [0, 1]
@@ -70,6 +73,35 @@ def work(tier, seed):
         for k in range(0, len(idxs), chunk):
             items.append({"kind": "matrix", "N": N, "entries": ents, "idxs": idxs[k:k + chunk]})
     return items
+
+
+def _run_many_samples(item, ctx):
+    from score_analysis import ConfusionMatrix
+
+    n = item["n"]
+    for classes in ([3, 1, 0, 2], ["c", "a", "b"]):
+        N = len(classes)
+        labels = [classes[(i * 7) % N] for i in range(n)]
+        preds = [classes[(i * 5 + i // N) % N] for i in range(n)]
+        heavy = (classes[0], classes[0])
+        for wk, w in (("heavy-first-cell", [2.0 ** 30 if (l_, p_) == heavy else 2.0 ** -30 * (1 + i % 3) for i, (l_, p_) in enumerate(zip(labels, preds))]),
+                      ("heavy-last-cell", [2.0 ** 30 if (l_, p_) == (classes[-1], classes[-1]) else 2.0 ** -30 * (1 + i % 3)
+                                           for i, (l_, p_) in enumerate(zip(labels, preds))]),
+                      ("none", None)):
+            want = ref_matrix(classes, labels, preds, w)
+            case = {"kind": "many_samples", "n": n, "classes": classes, "weights": wk}
+            ctx.state()
+            ctx.nontrivial()
+            ok, cm = guarded(ctx, "construct-from-predictions", case, lambda: ConfusionMatrix(labels=labels, predictions=preds, weights=w, classes=classes))
+            ctx.tick()
+            if ok and not _eqf(cm.matrix, want):
+                got = np.asarray(cm.matrix, dtype=float)
+                wantf = np.array([[float(x) for x in r] for r in want])
+                bad = np.argwhere(got != wantf)[:1].tolist()
+                ctx.fail("entry-is-total-weight", dict(case, first_wrong_cell=bad), observed=float(got[tuple(bad[0])]) if bad else None,
+                         expected=float(wantf[tuple(bad[0])]) if bad else None)
+    ctx.sample({"kind": "many_samples", "n": n})
+    return None
 
 
 def _run_many_classes(item, ctx):
@@ -283,6 +315,8 @@ def run(item, ctx, tier, seed):
     b = bounds(tier)
     if item["kind"] == "many_classes":
         return _run_many_classes(item, ctx)
+    if item["kind"] == "many_samples":
+        return _run_many_samples(item, ctx)
     if item["kind"] == "pred":
         classes = item["classes"]
         N = len(classes)
@@ -356,6 +390,8 @@ def run(item, ctx, tier, seed):
         df = pd.DataFrame([[m[a][c] for c in colp] for a in rowp], index=[names[a] for a in rowp],
                           columns=[names[c] for c in colp])
         dict_shuffled = {names[a]: {names[c]: m[a][c] for c in colp} for a in rowp}
+        # outer keys in class order, the first row in class order too, later rows with their own inner key orders
+        dict_ragged = {names[a]: {names[c]: m[a][c] for c in (range(N) if a == 0 else perms[(i + 3 * a) % len(perms)])} for a in range(N)}
         base = None
         if i % 3 == 1:
             ok_f, cmf = guarded(ctx, "construct-float", case, lambda: ConfusionMatrix(matrix=np.array(m, dtype=float) * 0.5, classes=names))
@@ -381,6 +417,8 @@ def run(item, ctx, tier, seed):
                              ("ndarray", dict(matrix=np.array(m), classes=names)),
                              ("dict", dict(matrix=as_dict)),
                              ("dict+classes", dict(matrix=dict_shuffled, classes=names)),
+                             ("dict-ragged-inner-order", dict(matrix=dict_ragged)),
+                             ("dict-ragged-inner-order+classes", dict(matrix=dict_ragged, classes=names)),
                              ("dataframe+classes", dict(matrix=df, classes=names))):
             ok, cm = guarded(ctx, "construct-" + form, dict(case, form=form), lambda: ConfusionMatrix(**kwargs))
             ctx.tick()
